@@ -23,7 +23,7 @@ from mc.models import ini
 ID = "C08"
 LEVEL = "model_checking"
 REQUIRED_OUTCOMES = ["perm:identical", "setorder:identical", "setorder:on-load:identical", "hashseed:identical",
-                     "repeat:identical", "lint:json", "lint:ini-sorted", "caller-order:kept", "reloaded-vs-scratch:identical"]
+                     "repeat:identical", "lint:json", "lint:ini-sorted", "caller-order:kept", "reloaded-vs-scratch:identical", "sparse:stable"]
 
 
 # ---- owning set iteration order ------------------------------------------------------------------
@@ -177,16 +177,23 @@ def build(content, perms):
         obj = MISC.set_compose(productmd.extra_files.ExtraFiles())
     else:
         obj = TI.build(spec)
+    keymask = int(perms.get("keys") or 0)          # bit k: the k-th child variant is registered under its UID (add(..., variant_id=uid))
+    nchild = 0
     for pi, part in enumerate(content["parts"]):
         order = perms.get(pi) or perms.get(str(pi)) or range(len(part))
         for k in order:
             st = part[k]
+            by_uid = {}
+            if st[0] == "var" and st[1] is not None:
+                if keymask >> nchild & 1:
+                    by_uid = {"variant_id": st[2]["uid"]}
+                nchild += 1
             if st[0] == "var" and fmt == "ci":
                 var = CI._mk_variant(obj, st[2])
                 var.arches = lib_set(st[2]["arches"])
-                (obj.variants if st[1] is None else obj[st[1]]).add(var)
+                (obj.variants if st[1] is None else obj[st[1]]).add(var, **by_uid)
             elif st[0] == "var":
-                (obj.variants if st[1] is None else obj[st[1]]).add(TI._mk_variant(obj, st[2]))
+                (obj.variants if st[1] is None else obj[st[1]]).add(TI._mk_variant(obj, st[2]), **by_uid)
             elif st[0] == "path":
                 getattr(obj[st[1]].paths, st[2])[st[3]] = st[4]
             elif st[0] == "add":
@@ -265,6 +272,69 @@ def eval_repeat(ref):
                     obj.dump_for_tree(io.StringIO(), variant, arch, "%s/%s" % (variant[:1], arch[:1]))
         outs.append(TI.dumps(obj) if ref[0] == "ti" else obj.dumps())
     return {"all_identical": len(set(outs)) == 1}
+
+
+def _json_paths(node, prefix=()):
+    if isinstance(node, dict):
+        for k in sorted(node):
+            yield prefix + (k,)
+            for p2 in _json_paths(node[k], prefix + (k,)):
+                yield p2
+    elif isinstance(node, list):
+        for i, item in enumerate(node):
+            for p2 in _json_paths(item, prefix + (i,)):
+                yield p2
+
+
+def sparse_documents(fmt, canon):
+    """every document that is the canonical file with ONE key (JSON) / one option or section (INI) left out"""
+    if fmt == "ti":
+        parsed = ini.parse(canon)
+
+        def render(sections):
+            return "".join("[%s]\n%s\n" % (name, "".join("%s = %s\n" % (k, v.replace("\n", "\n\t")) for k, v in opts)) for name, opts in sections)
+        assert ini.parse(render(parsed)) == parsed
+        for si, (sec, opts) in enumerate(parsed):
+            yield ["section", sec], render(parsed[:si] + parsed[si + 1:])
+            for oi, (opt, _) in enumerate(opts):
+                yield ["option", sec, opt], render(parsed[:si] + [(sec, opts[:oi] + opts[oi + 1:])] + parsed[si + 1:])
+        return
+    doc = json.loads(canon)
+    for path in _json_paths(doc):
+        d2 = json.loads(canon)
+        node = d2
+        for k in path[:-1]:
+            node = node[k]
+        del node[path[-1]]
+        yield list(path), json.dumps(d2)
+
+
+def eval_sparse(ref, which=None):
+    """Documents that leave something out: whatever loads must then be written the same way every time,
+    and what it writes must be a fixed point (load + dump reproduces it)."""
+    fmt = ref[0]
+    canon = build(content_of(ref), {})[1]
+    d = (lambda o: TI.dumps(o)) if fmt == "ti" else (lambda o: o.dumps())
+    out = {"tried": 0, "loaded": 0, "unstable": [], "not_fixed_point": []}
+    for path, text in sparse_documents(fmt, canon):
+        if which is not None and path != which:
+            continue
+        out["tried"] += 1
+        obj = new_like(fmt)
+        if call(obj.loads, text)[0] != "ok":
+            continue
+        w = [call(lambda: d(obj)) for _ in range(3)]
+        if w[0][0] != "ok":
+            continue
+        out["loaded"] += 1
+        if not (w[0] == w[1] == w[2]):
+            out["unstable"].append(path)
+            continue
+        again = new_like(fmt)
+        r = call(again.loads, w[0][1])
+        if r[0] != "ok" or call(lambda: d(again)) != w[0]:
+            out["not_fixed_point"].append(path)
+    return out
 
 
 def lint(fmt, text):
@@ -394,6 +464,10 @@ def run_unit(unit, acc):
             for perm in itertools.permutations(range(len(part))):
                 singles.append({pi: list(perm)})
         combos = list(singles)
+        nchildren = sum(1 for part in c["parts"] for st in part if st[0] == "var" and st[1] is not None)
+        if fmt == "ti" and nchildren:                          # (composeinfo.Variant.add takes no key)
+            for mask in range(1, 2 ** min(nchildren, 4)):        # which children are registered under their UID rather than their id
+                combos.append({"keys": mask})
         if tier == "thorough":
             for a, b in itertools.combinations(range(len(c["parts"])), 2):
                 for pa in itertools.permutations(range(len(c["parts"][a]))):
@@ -406,10 +480,11 @@ def run_unit(unit, acc):
             acc.trace()
             acc.state((fmt, n, json.dumps(perms, sort_keys=True)))
             if not o["identical_to_canonical"]:
-                acc.violation("construction-order:%s:part%s" % (fmt, "+".join(map(str, sorted(perms)))),
+                acc.violation("construction-order:%s:part%s" % (fmt, "+".join(map(str, sorted(perms, key=str)))),
                               {"kind": "build", "ref": ref, "perms": {str(k2): v for k2, v in perms.items()}, "policy": None}, o,
                               "%s content %d built with part order %s does not give the bytes of the canonical-order build (%s; steps: %s)"
-                              % (fmt, n, perms, o["error"] or "different text", [c["parts"][p][i][:3] for p in perms for i in perms[p]][:6]))
+                              % (fmt, n, perms, o["error"] or "different text",
+                                 [c["parts"][p][i][:3] for p in perms if p != "keys" for i in perms[p]][:6]))
             else:
                 acc.outcome("perm:identical")
             acc.nontriv((fmt, n, json.dumps(perms, sort_keys=True)))
@@ -447,6 +522,17 @@ def run_unit(unit, acc):
             acc.violation("repeat:" + fmt, {"kind": "repeat", "ref": ref}, o, "%s content %d: three successive dumps of one object differ" % (fmt, n))
         else:
             acc.outcome("repeat:identical")
+        o2 = eval_sparse(ref)
+        acc.ev(o2["tried"])
+        acc.n["sparse_documents_loaded"] += o2["loaded"]
+        for kind in ("unstable", "not_fixed_point"):
+            for path in o2[kind]:
+                acc.violation("sparse:%s:%s" % (fmt, kind), {"kind": "sparse", "ref": ref, "path": path}, {kind: [path]},
+                              "%s content %d read from a file that leaves out %s: %s" % (fmt, n, path, {
+                                  "unstable": "three successive dumps of the loaded object differ",
+                                  "not_fixed_point": "what it writes is not reproduced by loading and writing it again"}[kind]))
+        if o2["loaded"] and not o2["unstable"] and not o2["not_fixed_point"]:
+            acc.outcome("sparse:stable")
         o = eval_lint(ref)
         acc.ev()
         if o["problems"]:
@@ -495,6 +581,9 @@ def replay(case):
         return eval_repeat(case["ref"])
     if k == "lint":
         return eval_lint(case["ref"])
+    if k == "sparse":
+        o = eval_sparse(case["ref"], which=case["path"])
+        return {kind: o[kind] for kind in ("unstable", "not_fixed_point") if o[kind]}
     if k == "cross":
         return eval_cross(case["fmt"], case["seed"], case["edit"])
     return eval_hashseed(case["seed"])
